@@ -29,10 +29,25 @@ def wTo {q : Nat} : WPt (Fp q) → Pt
 def toNats (b : Bytes) : List Nat := b.map (·.toNat)
 def ofNats (xs : List Nat) : Bytes := xs.map UInt8.ofNat
 
+/-- Jacobian → affine -/
+def jToAffine {q : Nat} [NeZero q] (P : Fast.JPt (Fp q)) : WPt (Fp q) :=
+  if P.z = 0 then .inf else
+    let zi := P.z⁻¹
+    let zi2 := zi * zi
+    .aff (P.x * zi2) (P.y * zi2 * zi)
+
+/-- scalar multiplication with the inversion-free Jacobian ladder of `Model/CurveEnc.lean` (one
+field inversion at the end instead of one per step) -/
+def fastSmul (C : Params) (k : Nat) (P : Pt) : Pt :=
+  withPrime C.p .inf fun q =>
+    match wOf (q := q) P with
+    | .inf => .inf
+    | .aff x y => wTo (jToAffine (Fast.jSmulAux (Fp.ofNat q C.a) (k.log2 + 1) k ⟨x, y, 1⟩ Fast.jInf))
+
 /-- scalar action of `Fp n` on the prime-order group of `C` (`n = C.n`); residues above `n/2` act
 as the negative of their complement, which keeps the small negative MSP coefficients cheap -/
 def smulFp (C : Params) {n : Nat} (k : Fp n) (P : Pt) : Pt :=
-  if 2 * k.val > n then Curves.neg C (Curves.smul C (n - k.val) P) else Curves.smul C k.val P
+  if 2 * k.val > n then Curves.neg C (fastSmul C (n - k.val) P) else fastSmul C k.val P
 
 /-- `FromBytes` of a scalar field of `len` bytes: exactly `len` big-endian bytes of a canonical
 residue (the re-encodings the driver looks at are canonical) -/
